@@ -1,6 +1,7 @@
 """C02 — a field holds exactly the value its specification assigns to every cell."""
 import itertools
 import math
+import os
 import random
 import warnings
 from fractions import Fraction
@@ -23,10 +24,27 @@ RULE = ("kinds: 'init' (exact regime: dyadic meshes 1-4 dims with 0-3 aligned, p
         "history update_field_values(valid) / rejected assignment / array setter(original array) step by step and in one go "
         "must EQUAL the rational model; 'init' label variants (12 %: wrong count, duplicates, attribute names, empty list, "
         "long names, a mesh dimension named like 'r' or a value column); 'malformed' (wrong shape / component count / type "
-        "through constructor, update_field_values and the array setter: rejected and state unchanged); 'tol' (arbitrary "
-        "binary64 meshes at scales 1e-9..10: 2^-40 relative bound on continuous outputs). Oracle on the real code alone: "
-        "per-cell re-evaluation of the specification at mesh.index2point(i) with explicit first-match over mesh.subregions, "
-        "containing-cell test for samples and source fields, column/iteration/line definitions, nvdim value columns per line. "
+        "through constructor, update_field_values and the array setter: rejected and state unchanged; incl. ONE component "
+        "for a vector field in every form - constant 1-tuple / 1-list, per-cell array (*n, 1) or (*n), source field with "
+        "nvdim 1, function returning a scalar / 1-tuple / 1-list / 1-array / [[x]] - and functions returning 0, 1..nvdim-1, "
+        "nvdim+1, nvdim+2, 2 nvdim numbers as tuple / list / array / nested (1,k) / (k,1) / tuple of 1-element arrays, "
+        "None or a string (vector fields), as the whole value, as a subregion entry and as the 'default' of a dictionary "
+        "(function or source field with another component count); functions returning nvdim numbers in a nested shape are "
+        "compared with the model, not judged); 'tol' (arbitrary binary64 meshes, length scales 1e-12..1e9, some with "
+        "300-2500 cells along one axis: 2^-36 relative bound on continuous outputs); 'near' (point look-up on arbitrary "
+        "binary64 meshes: 1-4 dims, length scales 1e-12..1e9 and 2^-40..2^30, round decimal cell sizes such as 1e-9 / "
+        "2.5e-10, offsets 0 / centred / up to 1e6 edge lengths, corners in any order, up to 6000 cells along one axis, "
+        "float / int / complex / bool, nvdim 1-3, every cell holding its own value; 36-60 sample points per field at "
+        "relative distances 1e-1 .. 1e-15 of a cell from a cell face, on either side, also near several faces at once, "
+        "next to the region's faces inside / outside within a third of the region tolerance / outside beyond 3 x the "
+        "tolerance, given as tuple / list / ndarray / numpy floats / bare number (1d); 3 lines whose points all lie at such "
+        "distances from faces). Exact regime: 4 more sample points at 2^-10 .. 2^-36 of a cell from a face (binary64 is "
+        "exact there: equality with the model). Oracle on the real code alone: per-cell re-evaluation of the "
+        "specification at mesh.index2point(i) with explicit first-match over mesh.subregions, containing-cell test for "
+        "samples, for EVERY reported line point and for source fields (exact rationals; a point closer than "
+        "2^-49 (|q|+1) cells to a face, q = its position in cells, may go to either neighbour: that is the rounding of "
+        "floor((p - pmin) / cell) in binary64, four roundings, nothing else is granted), column/iteration/line definitions, "
+        "nvdim value columns per line. "
         "non-trivial = accepted field with >= 2 cells whose array is not constant, or a rejected malformed specification")
 TRUSTED = ["harness/c02.py, harness/fieldio.py + driver JSON glue (Gaussian rationals, polynomial coefficient tables)",
            "NumPy broadcasting in np.full / slice assignment, xarray .sel(method='nearest') (nearest centre, ties to the "
@@ -39,7 +57,13 @@ ASSUMPTIONS = ["values are representable in the requested dtype (integers for in
                "followed by the model and only compared, not judged (tag obs:broadcast-accepted)",
                "no NaN among the specified values (NaN is the code's sentinel for 'not yet assigned'); dictionaries are not nested; "
                "a source field uses the same dimension names as the target mesh",
-               "exact-regime inputs (dyadic geometry, small dyadic values, degree <= 2): every binary64 operation on the code path is exact"]
+               "exact-regime inputs (dyadic geometry, small dyadic values, degree <= 2): every binary64 operation on the code path is exact",
+               "tolerance regime: binary64 as executed by NumPy obeys the standard model |fl(x) - x| <= 2^-53 |x| (no overflow / "
+               "underflow at the generated scales); the look-up band 2^-49 (|q|+1) cells is 4 x the resulting bound on "
+               "(p - pmin) / cell; sample points outside the region are generated clear of the region's comparison tolerance "
+               "(<= 1/3 or >= 3 times atol + rtol |x|), whose exact value is C01's subject",
+               "a function returning None / a string for a SCALAR field is not in the default malformed stream (NumPy casts it: "
+               "NaN / False / True are stored; flag VERIF_C02_NONE=1 turns the stream on)"]
 UNPROVED = ["dtype casting is NumPy's: the theorems hold for every value type because the model only moves values; that a value "
             "given as a Python int / float / complex ends up in the requested dtype unchanged is the ASSUMPTION 'representable', "
             "and the dtype the array gets when none is requested (max(value dtype, float64)) is not modelled",
@@ -47,9 +71,13 @@ UNPROVED = ["dtype casting is NumPy's: the theorems hold for every value type be
             "(dir(field)); non-string labels (TypeError) are not modelled; Line.n / Line.dim and the renaming setters of Line are not modelled",
             "xarray's nearest-neighbour selection, NumPy broadcasting and pandas' column assignment (existing name: overwritten in "
             "place, new name: appended) are modelled by contract; the frame's 'r' column is held squared (sqrt is NumPy's)",
+            "the theorems are about exact arithmetic (call_cell_contains: the sampled row is that of a cell containing the point): "
+            "that binary64 look-up returns that cell for points down to 2^-49 (|q|+1) cells from a face, at every length scale, "
+            "offset and mesh size, is established by the 'near' correspondence stream only; inside that band nothing is claimed. "
+            "Source fields with thousands of cells (model's nearest-centre scan is quadratic) are judged by the oracle alone",
             "finding D42 (open) is proved as a NEGATIVE statement about the code-shaped model (lineData_clash_value_column, "
             "lineData_clash_r): no positive theorem can hold for clashing names until the code changes"]
-BUDGET = {"quick": 80, "thorough": 900}
+BUDGET = {"quick": 100, "thorough": 1200}
 
 LABELS = ["a", "b", "c", "d", "e", "mx", "my", "mz", "px", "q1"]
 # names for which hasattr(field, name) holds on a field without labels: the vdims setter refuses them as labels
@@ -228,6 +256,11 @@ def build_src(sd, dims, kind):
 
 # --------------------------------------------------------------------------- specifications
 NESTED_STYLES = ["row", "col", "arrays"]
+# VERIF_C02_NONE=1 adds functions returning None / a string for SCALAR fields to the malformed stream.  Off by default:
+# the unchanged library accepts them for float / complex / bool (NumPy casts None to NaN resp. False and 'abc' to True;
+# the count is right), e.g. Field(mesh, nvdim=1, value=lambda p: None) holds NaN everywhere - reported to the lead as a
+# witness; what NumPy casts a returned object to is outside the model (ASSUMPTIONS: dtype casting is NumPy's)
+RET_NONE_SCALAR = os.environ.get("VERIF_C02_NONE", "") == "1"
 
 
 def gen_poly(rng, kind, nv, ndim, ncomp=None):
@@ -268,7 +301,7 @@ def gen_bad_poly(rng, kind, nv, ndim):
     if k == 1 and rng.random() < 0.3:
         leaf["comps"] = [[dict(c="0", e=[0] * ndim)]]            # the scalar 0 is special only as a constant
     leaf["style"] = rng.choice(["tuple", "list", "array", "scalar" if k == 1 else "tuple"] + (NESTED_STYLES if k >= 1 else []))
-    if nv > 1 and rng.random() < 0.12:
+    if (nv > 1 or RET_NONE_SCALAR) and rng.random() < 0.12:
         leaf["comps"], leaf["ret"] = [], rng.choice(["none", "str"])
     return leaf
 
@@ -342,8 +375,16 @@ def gen_bad_leaf(rng, kind, nv, ms):
     n = list(ms["n"])
     opts = ["str", "none", "vec", "arr+1", "arrc+1", "poly", "poly", "fieldnv", "fieldout"]
     if nv > 1:
-        opts += ["scalar", "scalar", "poly"]
+        opts += ["scalar", "scalar", "poly", "arrc1", "vec1"]
+        if n[-1] != nv:
+            opts += ["arrn"]
     k = rng.choice(opts)
+    if k == "vec1":                                        # one component for a vector field (constant)
+        return dict(k="vec", v=[gen_num(rng, kind)], **{"as": rng.choice(["tuple", "list"])})
+    if k == "arrc1":                                       # per-cell array with a component axis of length 1
+        return dict(k="arr", shape=n + [1], data=[gen_num(rng, kind) for _ in range(int(np.prod(n)))])
+    if k == "arrn":                                        # per-cell array without component axis
+        return dict(k="arr", shape=n, data=[gen_num(rng, kind) for _ in range(int(np.prod(n)))])
     if k in ("str", "none"):
         return dict(k="bad", what=k)
     if k == "scalar":
@@ -364,7 +405,8 @@ def gen_bad_leaf(rng, kind, nv, ms):
     if k == "poly":
         return gen_bad_poly(rng, kind, nv, len(n))
     if k == "fieldnv":
-        return dict(k="field", src=gen_src(rng, ms, [0] * len(n), n, nv + 1, kind))
+        nvs = rng.choice([nv + 1] + ([1, 1] if nv > 1 else []) + ([nv - 1] if nv > 2 else []))
+        return dict(k="field", src=gen_src(rng, ms, [0] * len(n), n, nvs, kind))
     return dict(k="field", src=gen_src(rng, ms, [0] * len(n), n, nv, kind, contained=False))
 
 
@@ -811,6 +853,9 @@ def gen_malformed(rng, tier):
         # one cell is left to the default (compared with the model also when every cell is covered)
         spec = gen_dict(rng, kind, nv, ms, subs, default_mode="const")
         spec["default"] = gen_bad_poly(rng, kind, nv, len(n))
+        if rng.random() < 0.3:                               # a source field with another component count as default
+            nvs = rng.choice([nv + 1] + ([1, 1] if nv > 1 else []))
+            spec["default"] = dict(k="field", src=gen_src(rng, ms, [0] * len(n), list(n), nvs, kind))
     else:
         if rng.random() < 0.6 or nv == 1:
             spec = gen_obs_leaf(rng, kind, nv, ms)
@@ -873,8 +918,9 @@ def gen_near(rng, tier, big=False):
         ndim = rng.choice([1, 1, 2, 3])
         n = [rng.randint(1, 3) for _ in range(ndim)]
         n[rng.randrange(ndim)] = rng.choice([rng.randint(300, 1200), rng.randint(1200, 6000)])
-        while int(np.prod(n)) > 12000:
-            n[int(np.argmin(n))] = 1
+        while int(np.prod(n)) > 7000 and sorted(n)[-2:-1] not in ([], [1]):
+            small = [a for a in range(ndim) if 1 < n[a] < max(n)] or [a for a in range(ndim) if n[a] > 1][:1]
+            n[small[0]] -= 1
     else:
         ndim = rng.choice([1, 1, 2, 2, 3, 3, 4])
         n = [rng.randint(1, 9) for _ in range(ndim)]
